@@ -138,6 +138,7 @@ func (c *c02gen) runDoc(r *rng, desc *thrift.TypeDescriptor, dfs []string, optBi
 	opts := conv.Options{DisallowUnknownField: optBits&1 != 0, String2Int64: optBits&2 != 0, NoBase64Binary: optBits&4 != 0, EnableValueMapping: optBits&8 != 0}
 	cv := c02Conv(r, opts, desc, []byte("{}"))
 	c.emit(optBits, c.oobLookups(keys), doc, c02Run(r, &cv, desc, doc, full), dfs)
+	c02EmitPortable(optBits, doc, desc, dfs)
 }
 
 func (c *c02gen) printVal(r *rng, optBits int, v *Val, style int) *c02printer {
@@ -359,6 +360,13 @@ func genC02Special(r *rng, class int) int {
 				}
 				variants = append(variants, t)
 			}
+			if root.K == thrift.STRING && len(doc) > 2 { // a literal cut off so that its body is a multiple of 32 bytes (finding 213)
+				t := append([]byte(nil), doc[:len(doc)-1]...)
+				for (len(t)-1)%32 != 0 {
+					t = append(t, byte('a'+r.intn(26)))
+				}
+				variants = append(variants, t)
+			}
 			if root.K == thrift.STRING { // unquoted text for a STRING / binary descriptor: the whole text is the string
 				raws := [][]byte{[]byte("abc"), []byte("a\"b\\c"), []byte("null"), []byte("12"), []byte(" \"abc\""), []byte("aGVsbG8="), []byte("aGVsbG8"), []byte("a\nb\x01"),
 					[]byte("{\"a\":1}"), c.str(), r.bytes(1 + r.intn(20)), []byte("abc\""), []byte("x\"abc\"")}
@@ -381,7 +389,7 @@ func genC02Special(r *rng, class int) int {
 			{ID: 9, Name: "rq", T: sc(thrift.I32), Req: 1},
 		}
 		c := c02Manual(r.fork(), W, WI)
-		desc, _ := c.prepare()
+		desc, dfs6 := c.prepare()
 		docs := []string{`{"a":null}`, `{"s":"x","a":null}`, `{"in":{"x":null}}`, `{"in":{"s":"q","x":null},"a":null}`, `{"o":null}`, `{"a":1,"o":null}`,
 			`{"a":null,"s":"x"}`, `{}`, `{"in":{},"d":null}`, `{"l":[1,2],"m":{"k":null},"s":null}`, `{"rq":1,"a":null}`, `{"rq":null}`, `{"in":{"x":null},"rq":2}`,
 			`{"a":null }`, `{"zz":1,"a":null}`, `{"a":null,"zz":null}`, `{"l":null}`, `{"in":null}`, `{"in":{"x":1,"s":null}}`}
@@ -399,6 +407,69 @@ func genC02Special(r *rng, class int) int {
 				f = append(f, fi(x.cap), fx(x.pre), fi(x.ec), fx(x.out))
 			}
 			out.emit(202, f...)
+			c02EmitPortable(wb<<0, doc, desc, dfs6)
+			n++
+		}
+	case 7: // member lookup by name through the NATIVE trie / hash map: aliases with bytes below '.' and above 'z', the special byte
+		// at every position, key sets in the trie regime (few keys) and in the hash regime (>= 20 keys over a 2-letter alphabet)
+		specials := " !#$%&'()*+,-{|}~"
+		S := &Ty{K: thrift.STRUCT, Name: "K"}
+		c := c02Manual(r.fork(), S)
+		used := map[string]bool{}
+		addField := func(alias string) {
+			if used[alias] || alias == "" {
+				return
+			}
+			used[alias] = true
+			id := int16(len(S.Fields) + 1)
+			t := sc([]thrift.Type{thrift.I32, thrift.STRING, thrift.BOOL, thrift.I64}[r.intn(4)])
+			f := &Fld{ID: id, Name: fmt.Sprintf("f%d", id), T: t, Req: 2}
+			S.Fields = append(S.Fields, f)
+			c.alias[f] = alias
+			c.annot[f] = fmt.Sprintf(" (api.key = \"%s\")", alias)
+		}
+		sp := specials[r.intn(len(specials))]
+		switch r.intn(3) {
+		case 0: // hash regime: many keys over {letter, special}
+			other := byte('a' + r.intn(26))
+			for tries := 0; len(S.Fields) < 20+r.intn(9) && tries < 400; tries++ {
+				b := make([]byte, 5+r.intn(2))
+				for i := range b {
+					b[i] = other
+					if r.bool() {
+						b[i] = sp
+					}
+				}
+				addField(string(b))
+			}
+		case 1: // trie regime: words joined by the special byte (first-name, e-mail, created-at, ...)
+			words := []string{"first", "last", "e", "mail", "name", "id", "age", "created", "updated", "at", "x", "zip", "code"}
+			for k := 3 + r.intn(6); k > 0; k-- {
+				a := words[r.intn(len(words))]
+				for q := r.intn(3); q > 0; q-- {
+					a += string(sp) + words[r.intn(len(words))]
+				}
+				addField(a)
+			}
+		default: // random short keys over the whole alphabet
+			alpha := specials + "./09AZaz_"
+			for k := 2 + r.intn(8); k > 0; k-- {
+				b := make([]byte, 1+r.intn(6))
+				for i := range b {
+					b[i] = alpha[r.intn(len(alpha))]
+				}
+				addField(string(b))
+			}
+		}
+		if len(S.Fields) == 0 {
+			addField("a" + string(sp))
+		}
+		desc, dfs := c.prepare()
+		for k := 0; k < 4; k++ {
+			ob := []int{0, 0, 1, 2}[r.intn(4)]
+			v := c.value(S, 0)
+			p := c.printVal(r, ob, v, r.intn(3))
+			c.runDoc(r, desc, dfs, ob, p.sb, p.skeys, false)
 			n++
 		}
 	case 4: // hand-written deviations and malformed texts on a fixed shape (each line: option bits, text)
@@ -483,6 +554,16 @@ var c02FixedTexts = []c02fixed{
 	{0, "{\"t\":tru}"}, {0, "{\"t\":truex}"}, {0, "{\"t\":TRUE}"}, {0, "{\"t\":falsy}"}, {0, "{\"t\":nulL}"}, {0, "{\"t\":n}"},
 	// unknown members: values of every kind, malformed inside the skipped value
 	{0, "{\"zz\":{\"a\":[1,2,{\"b\":null}]},\"i\":1}"}, {0, "{\"zz\":[1,\"x\",{}],\"i\":1}"}, {0, "{\"zz\":tru,\"i\":1}"}, {0, "{\"zz\":[1,},\"i\":1}"}, {0, "{\"zz\":{\"a\" 1},\"i\":1}"}, {0, "{\"zz\":01,\"i\":1}"}, {0, "{\"zz\":1.5e3,\"i\":1}"},
+	// paths peculiar to the portable converter's walk (check 211): a string for a descriptor that takes none falls out of the switch,
+	// literals cut off by the end of the text, strconv number syntax, unquoteBytes, base64 with CR / LF
+	{0, "{\"t\":\"x\"}"}, {0, "{\"t\":\"x\" true}"}, {0, "{\"i\":\"x\" 5}"}, {0, "{\"l\":\"x\"[1]}"}, {0, "{\"f\":\"x\"{}}"}, {0, "{\"i\":\"a\" \"b\" 7,\"t\":true}"},
+	{0, "{\"s\":\"abc"}, {0, "{\"s\":\"ab\\"}, {0, "{\"s\":\"ab\\\""}, {0, "{\"s\":\""}, {0, "{\"s"}, {0, "{\"s\":\"a\\u00"},
+	{0, "{\"i\":007}"}, {0, "{\"i\":-007}"}, {0, "{\"d\":-.5}"}, {0, "{\"d\":1.}"}, {0, "{\"d\":1.e3}"}, {0, "{\"d\":00.5}"}, {0, "{\"d\":1e+}"}, {0, "{\"d\":1+2}"}, {0, "{\"d\":1e5e5}"}, {0, "{\"d\":1..2}"}, {0, "{\"i\":1-2}"}, {0, "{\"i\":12345678901234567890}"}, {0, "{\"y\":99999999999999999999999}"},
+	{0, "{\"s\":\"\\'\"}"}, {0, "{\"s\":\"\\ud83d\\u0041\"}"}, {0, "{\"s\":\"a\\n\xff\xfe\"}"}, {0, "{\"s\":\"\xff\xfe\"}"}, {0, "{\"s\":\"\\n\xed\xa0\x80\xf4\x90\x80\x80\xc0\xaf\"}"}, {0, "{\"s\":\"\\t\xe2\x82\xac\xf0\x9f\x98\x80\xc3\xa9\"}"}, {0, "{\"ms\":{\"\\ud83d\":1,\"\\'\":2}}"},
+	{0, "{\"b\":\"aGVs\\nbG8=\"}"}, {0, "{\"b\":\"aGVs\\r\\nbG8=\\n\"}"}, {0, "{\"b\":\"aGVsbG8\\n=\"}"}, {0, "{\"b\":\"aGVsbA=\\n=\"}"}, {0, "{\"b\":\"aGVsbA==\\nx\"}"},
+	{2, "{\"i\":\"+5\"}"}, {2, "{\"i\":\"007\"}"}, {2, "{\"i\":\"-\"}"}, {2, "{\"i\":\"9223372036854775808\"}"}, {2, "{\"i\":\"1_0\"}"}, {2, "{\"d\":\"+.5e1\"}"}, {2, "{\"d\":\"inf\"}"}, {2, "{\"d\":\"NaN\"}"}, {2, "{\"d\":\"0x1p3\"}"}, {2, "{\"d\":\"1_0\"}"}, {2, "{\"d\":\"1e999\"}"}, {2, "{\"d\":\"abc!\"}"}, {2, "{\"d\":\"\"}"}, {2, "{\"y\":\"300\"}"},
+	{0, "{\"md\":{\"inf\":true}}"}, {0, "{\"md\":{\"1e999\":true}}"}, {0, "{\"md\":{\"+1.5\":true,\".5\":false}}"}, {0, "{\"mi\":{\"+1\":\"a\",\"007\":\"b\"}}"},
+	{0, "{\"mi\":{\"1\" \"a\"}}"}, {0, "{\"mi\":{1:\"a\"}}"}, {0, "{\"mi\":{\"1\":\"a\",}}"}, {0, "{\"l\":[1,2"}, {0, "{\"l\":[1,2]"}, {0, "{\"zz\":{\"a\":\"}\"},\"i\":1}"}, {0, "{\"zz\":[\"]\\\"]\",[2]],\"i\":1}"}, {0, "{\"zz\":{]},\"i\":1}"}, {0, "{\"zz\":1.2.3,\"i\":1}"}, {0, "{\"zz\":1e,\"i\":1}"},
 	// EnableValueMapping + api.js_conv
 	{8, "{\"vl\":\"7\"}"}, {8, "{\"vl\":7}"}, {8, "{\"vl\":\"\"}"}, {8, "{\"vl\":\"x\"}"}, {8, "{\"vl\":\"1x\"}"}, {8, "{\"vl\":true}"}, {8, "{\"vl\":null}"}, {8, "{\"vl\":null,\"i\":1}"}, {8, "{\"vl\":[1]}"}, {8, "{\"vl\":\"9223372036854775807\"}"}, {8, "{\"vl\":\"9223372036854775808\"}"}, {8, "{\"vl\":\" 1\"}"}, {8, "{\"vl\":\"1 \"}"}, {8, "{\"vl\":\"\\u0031\"}"}, {8, "{\"vl\":1.0}"}, {8, "{\"vl\":\"1e2\"}"},
 	{8, "{\"vh\":5}"}, {8, "{\"vh\":\"5\"}"}, {8, "{\"vh\":\"\"}"}, {8, "{\"vh\":-2,\"i\":1}"}, {8, "{\"vh\":32768}"},
